@@ -12,7 +12,7 @@ theorem invP_stepOld (V : Variant) (s s'' : State) (k : Nat) (m m' : Mon) (h : I
   have hm := h.oldOk m (List.mem_of_getElem? hk)
   obtain ⟨e, hm'⟩ := stepMon_harmless V s s'' false m m' hm hs
   subst e
-  obtain ⟨a, b, c, d, e, f, g, i, j, k', l, mm, n, o⟩ := h
+  obtain ⟨a, b, c, d, e, f, g, i, j, k', l, mm, n, o, na⟩ := h
   constructor <;> simp only [lph, liter, lcur] at * <;> (try assumption)
   intro x hx
   rcases List.mem_or_eq_of_mem_set hx with hx | hx
@@ -27,11 +27,11 @@ theorem invP_stepLast_post (V : Variant) (hW : WF V) (s s'' : State) (m m' : Mon
   have hmono := afterOk_mono
   have hne := postOk_ne_nil V.testThread
   have hWp := hW.post
-  obtain ⟨flag, pending, queue, arrAlive, reported, crashes, submitted, hit, sph, cur, todo, old, mon, oldSubs, sub⟩ := s
+  obtain ⟨flag, pending, queue, arrAlive, reported, crashes, submitted, hit, sph, cur, todo, old, mon, oldSubs, sub, armed, faulted, dropped⟩ := s
   simp only at hmon; subst hmon
   obtain ⟨mph, iter, mcur, idx⟩ := m
   simp only at hph
-  obtain ⟨a, b, c, d, e, f, g, i, j, k, l, mm, n, o⟩ := h
+  obtain ⟨a, b, c, d, e, f, g, i, j, k, l, mm, n, o, na⟩ := h
   simp only [lph, liter, lcur] at a b c d e f g i j k l mm n o
   simp only at hN
   have c1 := mNops_pre_class
@@ -61,11 +61,11 @@ theorem invP_stepLast_main (V : Variant) (hW : WF V) (s s'' : State) (m m' : Mon
   have hmono := afterOk_mono
   have hne := postOk_ne_nil V.testThread
   have hWp := hW.post
-  obtain ⟨flag, pending, queue, arrAlive, reported, crashes, submitted, hit, sph, cur, todo, old, mon, oldSubs, sub⟩ := s
+  obtain ⟨flag, pending, queue, arrAlive, reported, crashes, submitted, hit, sph, cur, todo, old, mon, oldSubs, sub, armed, faulted, dropped⟩ := s
   simp only at hmon; subst hmon
   obtain ⟨mph, iter, mcur, idx⟩ := m
   simp only at hph
-  obtain ⟨a, b, c, d, e, f, g, i, j, k, l, mm, n, o⟩ := h
+  obtain ⟨a, b, c, d, e, f, g, i, j, k, l, mm, n, o, na⟩ := h
   simp only [lph, liter, lcur] at a b c d e f g i j k l mm n o
   simp only at hN
   have c1 := mNops_pre_class
